@@ -159,7 +159,7 @@ K_MATCH = [
       bounds="2 non-positive integer regrets >= -8; weight in +-{1/4,1,100,1000}", role="softmax fallback: no NaN, entries in [0,1], some positive"),
     H("c08_regret_match_softmax_order", f"{DATA}::rmatch", "quick", functions=["RegretParams::regret_match::<[f64; 2]>"], stubs=[_EXP], playback=True,
       bounds="as above", role="softmax probabilities ordered like weight*regret; equal regrets equal probabilities"),
-    H("c05_regret_match_positive_full2", f"{DATA}::rmatch", "thorough", functions=["RegretParams::regret_match::<[f64; 2]>"],
+    H("c05_regret_match_positive_full2", f"{DATA}::rmatch", "quick", functions=["RegretParams::regret_match::<[f64; 2]>"],
       bounds="2 regrets any f64 in [-1e300,1e300], some positive", role="entries in [0,1], no NaN, zero for non-positive regret, some positive entry"),
 ]
 K_AVG = [
@@ -169,6 +169,11 @@ K_AVG = [
       bounds="3 entries k/4, k in 0..=8", role="entry == c_i/sum and total one (1e-12)"),
     H("c05_avg_strat_full", f"{DATA}::kernels", "thorough", functions=["avg_strat"],
       bounds="2 entries any f64 in [0,1e300]", role="entries in [0,1], some positive, uniform when nothing accumulated"),
+]
+K_GD = [
+    H("c05_gen_discount_finite_total", f"{DATA}::kernels", "quick", functions=["RegretParams::gen_discount", "logaddexp::LogAddExp::ln_add_exp (executed)"],
+      stubs=["f64::ln -> contract model (finite, sign by side of 1)", _EXP, "f64::powf -> any non-negative value incl. +inf", "f64::ln_1p -> contract model (0 at 0, in [0, min(x, 0.7)] on [0,1])"], playback=True,
+      bounds="exponent any finite non-zero f64 in [-1000, 1000]; iteration any u64 >= 1", role="discount factor for finite exponents is never NaN and lies in [0,1] (over/underflow of t^a included)"),
 ]
 K_NEWREJ = [
     H("c05_params_new_rejects", f"{DATA}::kernels", "quick", functions=["RegretParams::new"], expect_fail=["*"],
@@ -187,7 +192,7 @@ REGISTRY["C05"] = {
                    "(budget 0, bounds finite/non-negative) and of the thread-count arithmetic; whole solve runs are out of reach.",
     "assumptions": ["regrets and accumulated strategies within +-1e300 (overflow to inf at astronomically large payoffs is outside the claim)",
                     "rayon pool construction, lock contention, deadlock freedom are outside (Kani is sequential)"],
-    "harnesses": [h for h in K_MATCH if h.name.startswith("c05")] + K_AVG + K_NEWREJ + [K_DISCOUNT[-1]],
+    "harnesses": [h for h in K_MATCH if h.name.startswith("c05")] + K_AVG + K_NEWREJ + [K_DISCOUNT[-1]] + K_GD,
 }
 MANIFEST_TEXT["C05"] = {
     "engine": "kani",
@@ -302,7 +307,7 @@ K_THREADS = [
       role="on return nothing is left in `work`: the driver hands only `queue` to the pool and reuses both vectors in the next iteration")
     for t, u in [(1, 2), (2, 3), (3, 4), (4, 5)]
 ] + [
-    H(f"c06_thread_threshold_cut_t{t}", f"{VAN}::threads", "quick", functions=[_TT], playback=True,
+    H(f"c06_thread_threshold_cut_t{t}", f"{VAN}::threads", "quick", functions=[_TT], playback=False, native="c06",
       bounds=f"tree: root (either player) over a decision node (either player) and a terminal; task target {t}; strategies k/4",
       role="tasks are nodes of the tree carrying exactly their path's reach (own component only), no node twice, no task below another")
     for t in (1, 2)
@@ -462,6 +467,11 @@ _CACHED = H("c06_recurse_multi_chance_and_cached_root", f"{VAN}::steps", "quick"
             bounds="chance node (1/4, 3/4) over two children served from a harness-defined payoff cache; cached values in {-2,1,3}; unwind 3",
             role="a cached node returns its cached payoff without descending; chance value = probability-weighted sum over every outcome")
 REGISTRY["C06"]["harnesses"].append(_CACHED)
+REGISTRY["C06"]["harnesses"].append(
+    H("c06_thread_threshold_cut_two_levels", f"{VAN}::threads", "quick", functions=[_TT], playback=False, native="c06",
+      bounds="complete binary tree of depth 2, owners of root and second level symbolic (same player possible); task target 3 (frontier stops mid-level); strategies k/4; unwind 4",
+      role="every task carries the product of the strategy probabilities along its path in its owner's component"))
+REGISTRY["C12"]["harnesses"].append(K_MATCH[-1])
 REGISTRY["C08"]["harnesses"].append(_CACHED)
 
 # ---------------------------------------------------------------------------------------------
@@ -474,7 +484,7 @@ def _mirsmt_drivers(keys):
         for f in r["findings"]:
             k = f.key.split(":", 1)[1]
             if any(k.startswith(p) for p in keys):
-                f.native_kind = "c07" if k.startswith("spi-") else ("c06" if k.startswith("vm-") else "xdriver")
+                f.native_kind = "c07" if k.startswith("spi-") else ("c06" if k.startswith("vm-") else ("gs" if k.startswith("gs-") else "xdriver"))
                 keep.append(f)
         r["findings"] = keep
         r["obligations"] = [o for o in r["obligations"] if any(o[1].startswith(p) for p in keys)]
@@ -482,16 +492,53 @@ def _mirsmt_drivers(keys):
     return part
 
 
-REGISTRY["C08"]["parts"] = [_mirsmt_drivers(["xs-"])]
+REGISTRY["C08"]["parts"] = [_mirsmt_drivers(["xs-", "gs-default", "gs-dispatch", "gs-budget", "gs-threshold", "gs-player"])]
+REGISTRY["C05"]["parts"] = [_mirsmt_drivers(["gs-one-thread", "gs-thread-overflow"])]
+REGISTRY["C10"]["parts"] = [_mirsmt_drivers(["gs-dispatch"])]
 REGISTRY["C09"]["parts"] = [_mirsmt_drivers(["xs-stop", "xs-iteration", "xs-call-counts", "xs-order"])]
 REGISTRY["C07"]["parts"] = [_mirsmt_drivers(["spi-"])]
 REGISTRY["C06"]["parts"] = [_mirsmt_drivers(["vm-"])]
 for _p, _t in (("C08", " The external-sampling driver loop (one iteration: pass order, which table and which advance::<FIRST> each pass uses, iteration index) is decided by E2 on the library's MIR."),
                ("C09", " For the external-sampling driver the stop decision of one iteration is decided by E2 on the library's MIR: the loop leaves exactly when fp.max(b1,b2) < r, for all f64."),
                ("C06", " One iteration of the rayon driver closure of solve_generic_multi is executed symbolically from the library's MIR (E2; inner loop unrolled <= 3): the tasks handed to the pool are thread_threshold's queue, their payoffs go into the cache the cached traversal reads, and that cache is cleared at the end of every iteration."),
+               ("C05", " Game::solve's thread-count arithmetic is decided by E2 on the library's MIR (acyclic): with one thread no error path exists; 3 x threads overflowing usize returns SolveError::ThreadOverflow before any solver runs."),
+               ("C10", " The method dispatch of Game::solve is decided by E2 on the library's MIR: each method reaches only its own solver (the unsampled method never reaches a sampling solver)."),
                ("C07", " The loop-free single_player_iter is decided by E2 on the library's MIR: cut, tasks into the cache, cached traversal, the same cache cleared after every pass, update.")):
     REGISTRY[_p]["explanation"] += _t
     MANIFEST_TEXT[_p]["engine"] = "kani+mirsmt"
     MANIFEST_TEXT[_p]["technique"] += "; MIR-to-SMT (z3) for the external-sampling driver"
 MANIFEST_TEXT["C09"]["note"] = ("Kani: the full single-thread loop shared by Full and Sampled (any budget <= 3). E2: one iteration of solve_external_single from an arbitrary state (call sequence and stop decision); "
                                 "solve_generic_multi and solve_external_multi's scope closures are outside.")
+
+_ACC = H("c02_bound_and_info_accessors", f"{LIB}::c02", "quick", functions=["RegretBound::{new,player_regret_bound,regret_bound}", "StrategiesInfo::{player_regret,regret,player_utility}"],
+         bounds="all non-negative f64 pairs incl. +inf; utility any non-NaN f64", role="total = larger of the two players; per-player values indexed by player; player two's utility is the negation")
+REGISTRY["C02"]["harnesses"].append(_ACC)
+
+_GDREC = "RegretParams::gen_discount -> recorder (logs the iteration index, returns 1/2)"
+_IDX = [
+    H("c08_advance_regret_discount_index", f"{VAN}::advance", "quick", functions=["<RegretInfoset as PlayerRecurse>::advance", "<MutexRegretInfoset as MutexPlayerRecurse>::advance", "RegretParams::discount_cum_regret"],
+      stubs=[_GDREC], playback=False, native="xdriver", bounds="finite exponents (1.5, 0.5); t in 1..=100; regrets (2,-4)", role="regret discounts of iteration t are computed with index t (plain and mutex infoset); bound from the discounted regrets"),
+    H("c08_external_regret_discount_index", f"{EXT}::steps", "quick", functions=["<CachedInfoset as ActiveInfo>::advance::<true/false>"],
+      stubs=[_GDREC], playback=False, native="xdriver", bounds="same, both passes", role="regret discounts use index t for both players in external sampling"),
+]
+REGISTRY["C08"]["harnesses"] += _IDX
+REGISTRY["C19"]["harnesses"].insert(3, H("c19_distance_unequal_tables", f"{LIB}::c19", "quick", functions=["Strategies::distance"],
+    stubs=["f64::powf -> x^2 on the grid; exponent fixed to 2"], playback=True,
+    bounds="player one: two 2-action infosets, player two: one; probabilities k/4", role="each player's distance is the mean over THAT player's infosets of half the summed squared differences (exact value)"))
+REGISTRY["C14"]["harnesses"].append(H("c14_import_two_infosets_layout", f"{LIB}::c14", "quick", functions=["Game::strat_into_box", "Game::strat_into_box_slow"], stubs=[_MAPS], playback=True,
+    bounds="two 2-action infosets listed in either order, one (action, weight) pair each, every action choice; unwind 3", role="each weight lands in the slot of its own infoset and action in both import functions"))
+
+REGISTRY["C08"]["harnesses"].append(H("c08_recurse_single_chance_over_terminals", f"{VAN}::steps", "quick", functions=["vanilla::recurse_single (chance arm)", "<FullChance as ChanceRecurse>::next_nodes"], pbfile="vsteps",
+    bounds="chance node (1/4, 3/4) over two terminals with payoffs in {-2,1,3}; unwind 3", role="single-thread traversal: chance value = probability-weighted sum over every outcome"))
+REGISTRY["C10"]["harnesses"].append(REGISTRY["C08"]["harnesses"][-1])
+
+REGISTRY["C07"]["harnesses"].append(H("c07_external_threshold_follows_sample_second_pass", f"{EXT}::xthreads", "quick",
+    functions=["external::thread_threshold::<false>", "external::next_nodes::<false>", "CachedInfoset::sample"], stubs=["H-draw hook (logged symbolic draw)"], playback=True,
+    bounds="player-one (opponent of the second pass) node at the root over two player-two nodes; target 2; every draw", role="second pass: frontier on the sampled path only; one draw, reused"))
+REGISTRY["C08"]["harnesses"] += [
+    H("c08_advance_average_index_mutex", f"{VAN}::advance", "quick", functions=["<MutexRegretInfoset as MutexPlayerRecurse>::advance"], stubs=[_POWHALF], playback=True,
+      bounds="gamma in {1,2,3}, t in 1..=16", role="multi-thread infoset: average discounted once per update with base t/(t+1), exponent gamma"),
+    H("c08_recurse_single_one_action_node", f"{VAN}::steps", "quick", functions=["vanilla::recurse_single (decision-node arm: borrow, update_cum_strat, recurse_player, regret correction)"], pbfile="vsteps", playback=True, native="c06",
+      bounds="one-action decision node of either player over a terminal; reach in {1/4,1/2,1}^3; real recursion (depth 2); unwind 2", role="single-thread traversal feeds the average strategy with the ACTING player's own reach; value is the child's; regret unchanged"),
+]
+REGISTRY["C02"]["harnesses"].append(REGISTRY["C08"]["harnesses"][-1])
